@@ -156,7 +156,7 @@ class C04(Prop):
         # must be readable whatever else the struct holds; what reflection refuses to hand over is null
         for _ in range(400 if tier == "thorough" else 60):
             nm, cnt = rng.choice(["bob", "", "héllo"]), rng.choice([0, 7, 70000])
-            k = rng.choice("12345")
+            k = rng.choice("1234567")
             obj = "K%s(%s,%d)" % (k, vlib.hx(nm), cnt)
             views = {"1": {"Name": nm, "Count": cnt, "priv": 3, "secret": "s3cr3t", "ratio": 2.5, "flag": True},
                      "2": {"Name": nm, "Count": cnt, "p": None, "when": None, "inn": None, "i": None},
@@ -164,7 +164,11 @@ class C04(Prop):
                      "4": {"Name": nm, "Count": cnt, "privInner": None},
                      # (whether the fields of an embedded struct are visible under their own names is not demanded either way;
                      # the struct's own field of the same name must win)
-                     "5": {"Name": nm, "ID": cnt, "PubInner": None}}[k]
+                     "5": {"Name": nm, "ID": cnt, "PubInner": None},
+                     # one Go map reachable by two paths (no cycle) is a hash on both; maps that were never made are empty hashes
+                     "6": {"Name": nm, "Count": cnt, "Billing": {"city": nm, "zip": cnt}, "Shipping": {"city": nm, "zip": cnt}, "NilA": {}, "NilB": {}},
+                     "7": {"Name": nm, "Count": cnt, "x": {"city": nm, "zip": cnt}, "y": {"city": nm, "zip": cnt},
+                           "z": {"inner": {"city": nm, "zip": cnt}}}}[k]
             names = list(views)
             probe = rng.sample(names, min(len(names), rng.randint(1, 3)))
             src = "return [%s];" % ", ".join(probe)
